@@ -34,11 +34,13 @@ EXHAUSTIVE = {}
 
 
 def payloads(rng, tier):
-    n = {"quick": 60, "thorough": 1200, "search": 40}[tier]
+    n = {"quick": 60, "thorough": 800, "search": 40}[tier]
     kmax = {"quick": 3, "thorough": 4, "search": 2}[tier]
     cap = {"quick": 40, "thorough": 200, "search": 20}[tier]
-    for _ in range(n):
+    for i in range(n):
         k = rng.randint(1, kmax)
+        if k == 4 and i % 8:        # order 4 (256 vertices, long histories) only in one case out of eight: scoring is cubic
+            k = rng.randint(1, 3)
         rows = gen.coding_graph(rng, k)[2] if rng.random() < 0.7 else gen.arc_subset(rng, k, keep=rng.choice([0.5, 0.8, 1.0]))
         if not gen.live_vertices(rows):
             continue
